@@ -84,6 +84,9 @@ impl Ask {
         match self.e {
             4 => 0,
             1..=3 | 5 | 6 => 1,
+            // (a streamed answer that fails midway: what was produced, and
+            // the error response in the failed item's place)
+            7 => self.m.clamp(1, 3) + 1,
             _ => self.m.max(1),
         }
     }
@@ -245,6 +248,15 @@ impl Service<Vec<u8>, ()> for SimService {
                 return Box::pin(futures_util::stream::once(std::future::ready(first)).chain(futures_util::stream::once(second))) as SvcStream;
             }
             PRODUCED.with(|p| p.borrow_mut().insert(ask.k, sim::now_ns()));
+            if ask.e == 7 {
+                // A streamed answer that fails midway: one to three responses,
+                // then an error item - which goes out as an error response
+                // like any other, behind what was sent before it.
+                sim::stat("probe.service_stream_fails_after_some_responses");
+                let mut items: Vec<ServiceResult<Vec<u8>>> = (0..ask.m.clamp(1, 3)).map(|j| Ok(CallResult::new(build_response(&msg, &ask, j)))).collect();
+                items.push(Err(ServiceError::InternalError));
+                return Box::pin(futures_util::stream::iter(items)) as SvcStream;
+            }
             match ask.e {
                 1 => return Box::pin(futures_util::stream::once(std::future::ready(Err(ServiceError::Refused)))) as SvcStream,
                 2 => return Box::pin(futures_util::stream::once(std::future::ready(Err(ServiceError::FormatError)))) as SvcStream,
@@ -451,7 +463,11 @@ fn gen_ask(k: u32, udp: bool) -> Ask {
         4 => sim::draw("ask.delay_ms", 30) as u32,
         _ => 50 + sim::draw("ask.delay_long", 200) as u32,
     };
-    let mut e = if sim::chance("ask.err", 1, 8) { 1 + sim::draw("ask.err_kind", 4) as u32 } else { 0 };
+    let mut e = if sim::chance("ask.err", 1, 8) { 1 + sim::draw("ask.err_kind", 5) as u32 } else { 0 };
+    if e == 5 {
+        // (5 and 6 are the slow services below.)
+        e = if udp { 3 } else { 7 };
+    }
     // With a short idle timeout: now and then a request whose service first
     // asks for a longer one and answers after the old one has passed.
     if !udp && IDLE_MS.with(|c| c.get()) == 2000 && sim::chance("ask.reconfigure_then_slow", 1, 10) {
@@ -1702,7 +1718,7 @@ fn check(led: &Led, max_response_size: Option<u16>, junk: &[Vec<u8>]) {
             && per_req.get(&i).is_some_and(|v| {
                 dns::view(v[0]).is_some_and(|x| x.recs.iter().all(|r| r.section != 1) && x.full_rcode != 0)
             })
-            && (s.ask.e == 4 || s.ask.m > 1 || s.ask.n > 0);
+            && (s.ask.e == 4 || s.ask.e == 7 || s.ask.m > 1 || s.ask.n > 0);
         let want = if short_circuited { 1 } else { s.ask.produces() };
         if got > want {
             if sim::violation(P, "exactly-once", if s.udp { "duplicate-response/udp" } else { "duplicate-response/stream" }, format!("request k={} ({:?}) produced {} responses at the client, the service produced {}", s.ask.k, s.ask, got, want)) {
